@@ -867,8 +867,6 @@ def skeleton(nodes):
 HOSTILE = ["<", ">", "&", '"', "'", "--", "]]>", "<!--", "-->", "&amp;", "&lt;", "&#60;", "&quot;", "</", "/>",
            "<![CDATA[", "-", "!", "=", " ", "a", ";", "<b>", "</div>", "</g>", "é", "\U0001f600", "\t", "\n", "\r"]
 CONTROLS = ["\x00", "\x01", "\x0c", "\x1b", "\x7f"]       # HTML5 only (XML 1.0 cannot represent C0 controls)
-HOSTILE_SMALL = ["<", ">", "&", '"', "'", "--", "]]>", "<!--", "-->", "&amp;", "&#60;", "</", "/>", "-", "=", " ",
-                 "a", ";", "<b>", "</div>", "é", "\n", "\x00"]
 
 
 def el(name, attrs=(), children=(), slots=(), bn=False):
@@ -941,8 +939,9 @@ class HostileLeaf(Bounded):
     prop = "C28"
     title = ("a hostile string as text / attribute value / CDATA in every escaping context: flattenString output "
              "parsed by expat (XML) and by an HTML5 tokenizer gives back exactly that string in that place")
-    scope = ("every concatenation of <= 2 (thorough <= 3) tokens from a 23 (thorough 35) token hostile alphabet "
-             "(< > & \" ' -- ]]> <!-- --> &amp; &#60; </ /> <b> </div> controls NUL/CR/LF/TAB non-ASCII ...), as str "
+    scope = ("every concatenation of <= 2 (thorough <= 3) tokens from a 35 token hostile alphabet (< > & \" ' -- ]]> "
+             "<!-- --> &amp; &lt; &#60; &quot; </ /> <![CDATA[ - ! = ; <b> </div> </g> TAB LF CR NUL \\x01 FF ESC DEL, "
+             "non-ASCII BMP and astral), as str "
              "and as UTF-8 bytes, in 10 text contexts (child, attribute, void-element attribute, child / attribute of "
              "an element quoted inside an attribute, two levels of attribute quoting, slot in text and in two "
              "attributes, late Deferred, renderer filling a slot used in text and attribute) and 3 CDATA contexts "
@@ -951,7 +950,7 @@ class HostileLeaf(Bounded):
     functions = FUNCTIONS
 
     def cases(self, tier, rng):
-        alpha = HOSTILE_SMALL if tier == "quick" else HOSTILE + CONTROLS
+        alpha = HOSTILE + CONTROLS
         top = 2 if tier == "quick" else 3
         for k in range(0, top + 1):
             for toks in itertools.product(alpha, repeat=k):
@@ -1003,13 +1002,13 @@ class DeliveryPaths(Bounded):
              "fired/late Deferred, coroutine, slot, slot default, renderer, IRenderable, transparent tag), in child "
              "and attribute position, parses back as that content")
     scope = ("15 x 15 ordered pairs of wrappers around a leaf that is str text, bytes text, Comment (str/bytes) or "
-             "CDATA (str/bytes, svg root) with 10 hostile payloads (quick: 5), placed as a child and as an attribute "
+             "CDATA (str/bytes, svg root; quick: bytes only for text) with 10 hostile payloads, placed as a child and as an attribute "
              "value; both parsers; comment payloads restricted to data without '--' (see CommentDataXml/Html5); "
              "exhaustive over that scope")
     functions = FUNCTIONS
 
     def cases(self, tier, rng):
-        leaves = PATH_LEAVES[:5] if tier == "quick" else PATH_LEAVES
+        leaves = PATH_LEAVES
         kinds = ("t", "tb", "c", "cd") if tier == "quick" else ("t", "tb", "c", "cb", "cd", "cdb")
         for w1 in WRAPPERS:
             for w2 in WRAPPERS:
@@ -1082,6 +1081,32 @@ class CommentDataHtml5(_CommentData):
              "siblings untouched")
     scope = ("every data string over {- > ! < & a} of length <= 5 (thorough 7) as str; length <= 3 (4) as bytes and "
              "as a Comment inside an attribute value; WHATWG comment states; exhaustive")
+
+
+def comment_region_violated(parser, s):
+    """the data regions in which CommentDataXml / CommentDataHtml5 fail on the current tree (derived from the two
+    grammars: XML forbids '--' inside a comment; HTML5 ends a comment at a leading '>' or '->' and at '--!>')"""
+    if parser == "xml":
+        return "--" in s
+    return s.startswith(">") or s.startswith("->") or "--!>" in s
+
+
+class CommentDataRest(_CommentData):
+    title = ("Comment(data) for data outside the regions refuted by CommentDataXml / CommentDataHtml5: exactly one "
+             "comment, siblings untouched (keeps the working part of escapedComment - '-->' under HTML5, a trailing "
+             "'-' - under regression control while those two classes fail)")
+    scope = ("same words and placements as CommentDataXml/Html5, both parsers, minus data containing '--' (XML) and "
+             "data starting with '>' or '->' or containing '--!>' (HTML5); exhaustive over the rest")
+
+    def cases(self, tier, rng):
+        for parser in ("xml", "html5"):
+            for kind, s in _CommentData.cases(self, tier, rng):
+                if not comment_region_violated(parser, s):
+                    yield (parser, kind, s)
+
+    def check(self, case):
+        self.parser = case[0]
+        return _CommentData.check(self, case[1:])
 
 
 class CdataData(Bounded):
@@ -1308,11 +1333,11 @@ class RandomTrees(Bounded):
              "values and defaults, renderers (replace / append / Deferred / fillSlots), IRenderable, transparent tags, "
              "CharRef, bytes tag and attribute names, markup quoted inside attributes (recursively); comment data "
              "restricted to the region not already refuted by CommentDataXml/Html5 (no '--', not starting '>' or "
-             "'->'); 3000 trees quick, 40000 thorough; NOT exhaustive (sampled)")
+             "'->'); 8000 trees quick, 60000 thorough; NOT exhaustive (sampled)")
     functions = FUNCTIONS
 
     def cases(self, tier, rng):
-        n = 3000 if tier == "quick" else 40000
+        n = 8000 if tier == "quick" else 60000
         for i in range(n):
             svg = rng.random() < 0.4
             controls = rng.random() < 0.33
@@ -1332,4 +1357,5 @@ class RandomTrees(Bounded):
         return check_desc(desc, parser)
 
 
-BOUNDED = [HostileLeaf, DeliveryPaths, CdataData, RandomTrees, CommentDataXml, CommentDataHtml5, CdataInHtmlContent]
+BOUNDED = [HostileLeaf, DeliveryPaths, CdataData, CommentDataRest, RandomTrees, CommentDataXml, CommentDataHtml5,
+           CdataInHtmlContent]
